@@ -142,6 +142,8 @@ def templates(tier, seed):
         tds.append(dict(fam="format", lo=i, hi=min(i + 12, len(FORMAT_CASES))))
     for c in SPECIAL_CMP:
         tds.append(dict(fam="special", expr=c[0], want=c[1]))
+    for c in CLOSE_CMP:
+        tds.append(dict(fam="special", expr=c[0], want=c[1]))
     for c in NONFINITE:
         for ctx in ("attr", "var", "text", "geom-free"):
             tds.append(dict(fam="nonfinite", expr=c[0], want=c[1], ctx=ctx))
@@ -240,7 +242,12 @@ NONFINITE = [("1/0", "inf"), ("0 - 1/0", "-inf"), ("0/0", "NaN"), ("log(0)", "-i
 # conditions: a single number, true iff non-zero (however small, whatever sign); anything else is an error, not a truth value
 COND_CASES = [("-0.0003", True), ("0.0004", True), ("0.00001", True), ("-1", True), ("0", False), ("0.0", False), ("-0", False), ("{{1 - 1}}", False), ("{{0.1 + 0.2 - 0.3}}", None),
               ("0, 0", "err"), ("1, 2", "err"), ("'no'", "err"), ("divmod(6, 3)", "err"), ("", "err"), ("1/0", True), ("0/0", None)]
-RANDOM_VARIANTS = ["reuse-attr-override", "reuse-attr-override2", "loop-count-random", "loop-count-random3", "for-data-random", "while-random", "geom", "text", "circle-r", "var", "if", "comment", "relpos", "g-attr", "two-in-one", "loop-body", "reuse-attr",
+# function forms of comparisons work on the values, not on their 3-decimal renderings
+CLOSE_CMP = [("eq(0.1234, 0.1232)", "0"), ("ne(0.1234, 0.1232)", "1"), ("eq(1 / 3, 0.3333)", "0"), ("ne(1 / 3, 0.3333)", "1"), ("eq(0.00004, 0)", "0"), ("ne(0.00004, 0)", "1"),
+             ("lt(0.1232, 0.1234)", "1"), ("gt(0.1234, 0.1232)", "1"), ("le(0.1234, 0.1232)", "0"), ("ge(0.1232, 0.1234)", "0"), ("0.1234 eq 0.1232", "0"), ("0.1234 ne 0.1232", "1"),
+             ("0.1232 lt 0.1234", "1"), ("eq(2.5, 2.5)", "1"), ("eq(1000.0001, 1000.0002)", "0"), ("max(0.1232, 0.1234) eq 0.1234", "1"), ("min(0.00004, 0.00005) lt 0.00005", "1"),
+             ("in(0.1234, 0.1232, 0.1233)", "0"), ("if(0.0004, 1, 2)", "1"), ("not(0.0004)", "0"), ("0.0004 and 1", "1"), ("0.0004 or 0", "1"), ("xor(0.0004, 0)", "1")]
+RANDOM_VARIANTS = ["same-twice", "same-twice-text", "same-thrice", "reuse-attr-override", "reuse-attr-override2", "loop-count-random", "loop-count-random3", "for-data-random", "while-random", "geom", "text", "circle-r", "var", "if", "comment", "relpos", "g-attr", "two-in-one", "loop-body", "reuse-attr",
                    "randint", "randint-same", "randint-frac", "randint-neg", "random-in-expr", "randint-in-cond"]
 
 
@@ -490,6 +497,8 @@ def build(td, wrong=False):
                "if": f'<if test="{R}"><circle r="1"/></if>', "comment": f'<rect wh="1" _="{R}"/>', "relpos": f'<rect xy="^|h {R}" wh="1"/>', "g-attr": f'<g q="{R}"><rect wh="1"/></g>',
                "two-in-one": f'<rect xy="{R} 0" wh="1" data-x="{R}"/>', "loop-body": f'<loop count="2"><rect xy="{R} 0" wh="1"/></loop>',
                "reuse-attr": f'<specs><rect id="t" wh="$w 1"/></specs><reuse href="#t" w="{R}"/>',
+               # the same expression text twice in one value is two occurrences
+               "same-twice": f'<rect wh="1" data-x="{R} {R}"/>', "same-twice-text": f'<rect wh="9" text="{R}/{R}"/>', "same-thrice": f'<var q="{R},{R},{R}"/>',
                # a reuse attribute that overrides a same-named attribute of the target is still one occurrence
                "reuse-attr-override": f'<specs><rect id="t" wh="4" rx="1"/></specs><reuse href="#t" rx="{R}"/>',
                "reuse-attr-override2": f'<specs><circle id="t" r="2" opacity="0.5" data-q="$opacity"/></specs><reuse href="#t" opacity="{R}"/>',
@@ -500,7 +509,7 @@ def build(td, wrong=False):
                "randint": '<rect wh="1" data-i="{{randint(1, 6)}}"/>', "randint-same": '<rect wh="1" data-i="{{randint(3, 3)}}"/>',
                "randint-frac": '<rect wh="1" data-i="{{randint(2.2, 2.9)}}"/>', "randint-neg": '<rect wh="1" data-i="{{randint(-4, -4)}}"/>',
                "random-in-expr": '<rect wh="1" data-i="{{0 * random() + 1}}"/>', "randint-in-cond": '<if test="{{randint(0, 0)}}"><circle r="1"/></if>'}[v]
-        draws = {"two-in-one": 2, "loop-body": 2, "while-random": 2}.get(v, 1)
+        draws = {"two-in-one": 2, "loop-body": 2, "while-random": 2, "same-twice": 2, "same-twice-text": 2, "same-thrice": 3}.get(v, 1)
         base_mid = "".join(f'<rect wh="1" data-m{j}="{R}"/>' for j in range(draws))
         d0 = f"<svg>{probe(1)}{mid}{probe(2)}{probe(3)}</svg>"
         d1 = f"<svg>{probe(1)}{base_mid}{probe(2)}{probe(3)}</svg>"
